@@ -1,7 +1,8 @@
 import NdnModel.Name
 import NdnProofs.Lemmas.TlNum
 import NdnProofs.Lemmas.Shrink
-/-! Wire-level lemmas for names: parsing an encoded component, `Name.decode ∘ Name.encode`. -/
+/-! Wire-level lemmas for names: parsing an encoded component, `Name.decode ∘ Name.encode`, what `Name.decode` accepts
+    (`decode_ok_exact`) and the rejection of a component that overruns the Name's Length (`decode_overrun`). -/
 namespace Ndn
 
 instance {ε α} [DecidableEq ε] [DecidableEq α] : DecidableEq (Except ε α) := fun a b =>
@@ -114,8 +115,12 @@ theorem decodeLoop_flatten (cs : List Bytes) (hcs : ∀ c ∈ cs, WfComp c) :
         rw [← List.append_assoc] at this
         rw [this, List.flatten_cons, List.append_assoc]
         exact parse_tlv_L t v _ hv
+      have hnov : ¬ (pre.length + tlNumSize t + tlNumSize v.length + v.length - pre.length
+          > (tlv t v :: cs).flatten.length) := by
+        have := tlv_length t v
+        rw [List.flatten_cons, List.length_append]; omega
       unfold Name.decodeLoop
-      simp only [hpos, if_false, e1, e2, bind, Except.bind]
+      simp only [hpos, hnov, if_false, e1, e2, bind, Except.bind]
       have hoff : pre.length + tlNumSize t + tlNumSize v.length + v.length = (pre ++ tlv t v).length := by
         rw [List.length_append, tlv_length]; omega
       have hsl : pySlice (pre ++ (tlv t v :: cs).flatten ++ post) pre.length (pre ++ tlv t v).length = tlv t v := by
@@ -161,5 +166,218 @@ theorem decode_encode (n : List Bytes) (hn : ∀ c ∈ n, WfComp c) (hl : n.flat
   unfold Name.encode
   rw [this]
   simp
+
+
+/-! ### `Name.decode` on EVERY byte string: what it accepts is exact, a component overrunning the Length is rejected -/
+theorem unpackAt_within {buf : Bytes} {a n v : Nat} (hn : 0 < n) (h : unpackAt buf a n = .ok v) : a + n ≤ buf.length := by
+  unfold unpackAt at h
+  simp only at h
+  split at h
+  · rename_i hl
+    simp only [pySlice, List.length_drop, List.length_take] at hl
+    omega
+  · cases h
+
+/-- a TL number that was read lies inside the buffer -/
+theorem parseTlNum_within {buf : Bytes} {off v n : Nat} (h : parseTlNum buf off = .ok (v, n)) : off + n ≤ buf.length := by
+  unfold parseTlNum at h
+  split at h
+  · cases h
+  · rename_i b hb
+    have hlt : off < buf.length := by
+      rcases Nat.lt_or_ge off buf.length with h' | h'
+      · exact h'
+      · rw [List.getElem?_eq_none_iff.mpr h'] at hb; cases hb
+    split at h
+    · cases h; omega
+    · split at h
+      · cases hu : unpackAt buf (off + 1) 2 with
+        | error e => rw [hu] at h; cases h
+        | ok x => rw [hu] at h; cases h; have := unpackAt_within (by omega) hu; omega
+      · split at h
+        · cases hu : unpackAt buf (off + 1) 4 with
+          | error e => rw [hu] at h; cases h
+          | ok x => rw [hu] at h; cases h; have := unpackAt_within (by omega) hu; omega
+        · cases hu : unpackAt buf (off + 1) 8 with
+          | error e => rw [hu] at h; cases h
+          | ok x => rw [hu] at h; cases h; have := unpackAt_within (by omega) hu; omega
+
+theorem slice_join {α} (buf : List α) (a b c : Nat) (hab : a ≤ b) (hbc : b ≤ c) (hc : c ≤ buf.length) :
+    pySlice buf a b ++ pySlice buf b c = pySlice buf a c := by
+  unfold pySlice
+  have e : buf.take c = buf.take b ++ (buf.take c).drop b := by
+    have := (List.take_append_drop b (buf.take c)).symm
+    rwa [List.take_take, Nat.min_eq_left hbc] at this
+  have e2 : (buf.take c).drop a = (buf.take b ++ (buf.take c).drop b).drop a := by rw [← e]
+  rw [e2, List.drop_append_of_le_length (by rw [List.length_take]; omega)]
+
+theorem decodeLoop_overrun_step (buf : Bytes) (fuel off length : Nat) (acc : List Bytes) (t st lc sl : Nat)
+    (h1 : parseTlNum buf off = .ok (t, st)) (h2 : parseTlNum buf (off + st) = .ok (lc, sl))
+    (h0 : 0 < length) (hov : length < st + sl + lc) :
+    Name.decodeLoop buf (fuel + 1) off length acc = .error .indexError := by
+  rw [Name.decodeLoop, if_neg (by omega)]
+  simp only [h1, h2, bind, Except.bind]
+  rw [if_pos (by omega)]
+
+/-- what the loop accepts tiles the declared extent exactly, for EVERY buffer -/
+theorem decodeLoop_ok_exact (buf : Bytes) : ∀ (fuel off length : Nat) (acc cs : List Bytes) (used : Nat),
+    off + length ≤ buf.length →
+    Name.decodeLoop buf fuel off length acc = .ok (cs, used) →
+    used = off + length ∧ cs.flatten = acc.flatten ++ pySlice buf off (off + length) := by
+  intro fuel
+  induction fuel with
+  | zero => intro off length acc cs used _ h; simp [Name.decodeLoop] at h
+  | succ f ih =>
+    intro off length acc cs used hb h
+    rw [Name.decodeLoop] at h
+    by_cases hz : length = 0
+    · subst hz
+      rw [if_pos rfl] at h
+      cases h
+      simp [pySlice]
+    · rw [if_neg hz] at h
+      cases h1 : parseTlNum buf off with
+      | error e => rw [h1] at h; cases h
+      | ok p1 =>
+        obtain ⟨t, st⟩ := p1
+        rw [h1] at h
+        cases h2 : parseTlNum buf (off + st) with
+        | error e => simp only [h2, bind, Except.bind] at h; cases h
+        | ok p2 =>
+          obtain ⟨lc, sl⟩ := p2
+          simp only [h2, bind, Except.bind] at h
+          by_cases hov : off + st + sl + lc - off > length
+          · rw [if_pos hov] at h; cases h
+          · rw [if_neg hov] at h
+            obtain ⟨hu, hf⟩ := ih _ _ _ _ _ (by omega) h
+            refine ⟨by omega, ?_⟩
+            rw [hf, List.flatten_append, List.flatten_singleton, List.append_assoc]
+            congr 1
+            have e : off + st + sl + lc + (length - (off + st + sl + lc - off)) = off + length := by omega
+            rw [e]
+            exact slice_join buf off (off + st + sl + lc) (off + length) (by omega) (by omega) hb
+
+
+/-- **what `Name.decode` accepts is exact**, for EVERY byte string: the buffer starts with Type 7 and a Length that fits
+    in it, the components returned are, joined, exactly the `Length` bytes after the header (no component is cut, none
+    runs past the declared Length, nothing of it is left over), and the count of bytes consumed is header + Length. -/
+theorem decode_ok_exact {buf : Bytes} {cs : List Bytes} {used : Nat} (h : Name.decode buf = .ok (cs, used)) :
+    ∃ st length sl, parseTlNum buf 0 = .ok (7, st) ∧ parseTlNum buf st = .ok (length, sl) ∧
+      used = st + sl + length ∧ used ≤ buf.length ∧ cs.flatten = pySlice buf (st + sl) used := by
+  unfold Name.decode at h
+  cases h1 : parseTlNum buf 0 with
+  | error e => rw [h1] at h; cases h
+  | ok p1 =>
+    obtain ⟨typ, st⟩ := p1
+    simp only [h1, bind, Except.bind] at h
+    by_cases ht : typ = Name.TYPE_NAME
+    · subst ht
+      rw [if_neg (by simp)] at h
+      cases h2 : parseTlNum buf st with
+      | error e => simp only [h2] at h; cases h
+      | ok p2 =>
+        obtain ⟨length, sl⟩ := p2
+        simp only [h2] at h
+        have w2 := parseTlNum_within h2
+        by_cases hov : length > buf.length - (st + sl)
+        · rw [if_pos hov] at h; cases h
+        · rw [if_neg hov] at h
+          obtain ⟨hu, hf⟩ := decodeLoop_ok_exact buf _ _ _ _ _ _ (by omega) h
+          exact ⟨st, length, sl, rfl, h2, hu, by omega, by rw [hf, hu]; rfl⟩
+    · rw [if_pos ht] at h; cases h
+
+/-- the loop walks over library-shaped components that lie within the declared Length -/
+theorem decodeLoop_peel (cs : List Bytes) (hcs : ∀ c ∈ cs, WfComp c) :
+    ∀ (pre post acc : List _) (fuel extra : Nat),
+      Name.decodeLoop (pre ++ cs.flatten ++ post) (fuel + cs.length) pre.length (cs.flatten.length + extra) acc
+        = Name.decodeLoop (pre ++ cs.flatten ++ post) fuel (pre.length + cs.flatten.length) extra (acc ++ cs) := by
+  induction cs with
+  | nil => intro pre post acc fuel extra; simp
+  | cons c cs ih =>
+    intro pre post acc fuel extra
+    obtain ⟨t, v, ht1, ht2, hv, rfl⟩ := hcs _ (List.mem_cons_self)
+    have hpos : (tlv t v :: cs).flatten.length + extra ≠ 0 := by
+      have := tlv_length t v; have := tlNumSize_pos t
+      rw [List.flatten_cons, List.length_append]; omega
+    have e1 : parseTlNum (pre ++ (tlv t v :: cs).flatten ++ post) pre.length = .ok (t, tlNumSize t) := by
+      have := parseTlNum_shift pre ((tlv t v :: cs).flatten ++ post) 0
+      rw [Nat.add_zero, ← List.append_assoc] at this
+      rw [this, List.flatten_cons, List.append_assoc]
+      exact parse_tlv_T t v _ (by omega)
+    have e2 : parseTlNum (pre ++ (tlv t v :: cs).flatten ++ post) (pre.length + tlNumSize t)
+        = .ok (v.length, tlNumSize v.length) := by
+      have := parseTlNum_shift pre ((tlv t v :: cs).flatten ++ post) (tlNumSize t)
+      rw [← List.append_assoc] at this
+      rw [this, List.flatten_cons, List.append_assoc]
+      exact parse_tlv_L t v _ hv
+    have hnov : ¬ (pre.length + tlNumSize t + tlNumSize v.length + v.length - pre.length
+        > (tlv t v :: cs).flatten.length + extra) := by
+      have := tlv_length t v
+      rw [List.flatten_cons, List.length_append]; omega
+    rw [show fuel + (tlv t v :: cs).length = (fuel + cs.length) + 1 from rfl, Name.decodeLoop]
+    simp only [hpos, hnov, if_false, e1, e2, bind, Except.bind]
+    have hoff : pre.length + tlNumSize t + tlNumSize v.length + v.length = (pre ++ tlv t v).length := by
+      rw [List.length_append, tlv_length]; omega
+    have hsl : pySlice (pre ++ (tlv t v :: cs).flatten ++ post) pre.length (pre ++ tlv t v).length = tlv t v := by
+      simp [pySlice, List.take_append]
+    have hlen : (tlv t v :: cs).flatten.length + extra - ((pre ++ tlv t v).length - pre.length) = cs.flatten.length + extra := by
+      rw [List.flatten_cons, List.length_append, List.length_append]; omega
+    rw [hoff, hsl, hlen]
+    have := ih (fun x hx => hcs x (List.mem_cons_of_mem _ hx)) (pre ++ tlv t v) post (acc ++ [tlv t v]) fuel extra
+    rw [List.flatten_cons]
+    rw [show pre ++ (tlv t v ++ cs.flatten) ++ post = pre ++ tlv t v ++ cs.flatten ++ post by simp]
+    rw [this]
+    simp only [List.length_append, List.append_assoc, List.singleton_append]
+    rw [Nat.add_assoc]
+
+/-- **a component that runs past the declared Length of the Name is rejected**: a Name TLV whose Length `L` ends
+    strictly inside a (library-shaped) component - after any number of whole components, whatever follows in the
+    buffer - raises `IndexError` (whether or not the overrunning component itself lies inside the buffer). -/
+theorem decode_overrun (n : List Bytes) (c post : Bytes) (hn : ∀ x ∈ n, WfComp x) (hc : WfComp c) (L : Nat)
+    (h1 : n.flatten.length < L) (h2 : L < n.flatten.length + c.length) (hL : L < 2^64) :
+    Name.decode (writeTlNum Name.TYPE_NAME ++ writeTlNum L ++ n.flatten ++ (c ++ post)) = .error .indexError := by
+  have h7 : writeTlNum Name.TYPE_NAME = [7] := by decide
+  generalize hbuf : writeTlNum Name.TYPE_NAME ++ writeTlNum L ++ n.flatten ++ (c ++ post) = buf
+  have e1 : parseTlNum buf 0 = .ok (7, 1) := by
+    rw [← hbuf, h7]; rfl
+  have e2 : parseTlNum buf 1 = .ok (L, tlNumSize L) := by
+    rw [← hbuf]
+    have := parseTlNum_shift (writeTlNum Name.TYPE_NAME) (writeTlNum L ++ n.flatten ++ (c ++ post)) 0
+    rw [h7] at this ⊢
+    simp only [List.length_singleton, Nat.add_zero] at this
+    rw [List.append_assoc, List.append_assoc, ← List.append_assoc (writeTlNum L), this, List.append_assoc]
+    exact parse_write _ _ hL
+  have hpre : (writeTlNum Name.TYPE_NAME ++ writeTlNum L).length = 1 + tlNumSize L := by
+    rw [h7, List.length_append, writeTlNum_length]; rfl
+  unfold Name.decode
+  simp only [e1, e2, bind, Except.bind, Name.TYPE_NAME]
+  simp only [ne_eq, not_true_eq_false, if_false]
+  by_cases hov : L > buf.length - (1 + tlNumSize L)
+  · rw [if_pos hov]
+  · rw [if_neg hov]
+    have hnl := flatten_length_ge n (fun x hx => (hn x hx).ne_nil)
+    obtain ⟨f, hf⟩ : ∃ f, L + 1 = (f + 1) + n.length := ⟨L - n.length, by omega⟩
+    obtain ⟨extra, hx⟩ : ∃ extra, L = n.flatten.length + extra := ⟨L - n.flatten.length, by omega⟩
+    have hp := decodeLoop_peel n hn (writeTlNum Name.TYPE_NAME ++ writeTlNum L) (c ++ post) [] (f + 1) extra
+    rw [hbuf, hpre] at hp
+    rw [hf]
+    conv => lhs; arg 4; rw [hx]
+    rw [hp]
+    obtain ⟨t, v, ht1, ht2, hv, rfl⟩ := hc
+    have hsplit : buf = (writeTlNum Name.TYPE_NAME ++ writeTlNum L ++ n.flatten) ++ (tlv t v ++ post) := hbuf.symm
+    have hlen : (writeTlNum Name.TYPE_NAME ++ writeTlNum L ++ n.flatten).length = 1 + tlNumSize L + n.flatten.length := by
+      rw [List.length_append, hpre]
+    have p1 : parseTlNum buf (1 + tlNumSize L + n.flatten.length) = .ok (t, tlNumSize t) := by
+      have := parseTlNum_shift (writeTlNum Name.TYPE_NAME ++ writeTlNum L ++ n.flatten) (tlv t v ++ post) 0
+      rw [Nat.add_zero, hlen, ← hsplit] at this
+      rw [this]
+      exact parse_tlv_T t v _ (by omega)
+    have p2 : parseTlNum buf (1 + tlNumSize L + n.flatten.length + tlNumSize t) = .ok (v.length, tlNumSize v.length) := by
+      have := parseTlNum_shift (writeTlNum Name.TYPE_NAME ++ writeTlNum L ++ n.flatten) (tlv t v ++ post) (tlNumSize t)
+      rw [hlen, ← hsplit] at this
+      rw [this]
+      exact parse_tlv_L t v _ hv
+    have := tlv_length t v
+    exact decodeLoop_overrun_step buf f _ extra _ t _ _ _ p1 p2 (by omega) (by omega)
 
 end Ndn
